@@ -4,16 +4,16 @@ import "verif/engine/sym"
 
 func init() {
 	grids["C19"] = &gridDef{
-		explain: "REDUCED SCOPE. The repository's own control flow and index arithmetic in Csv.ReadFromReader / ReadFromFile, JSONToChanWithLogger and TiingoRepository.GetSince run over nondeterministic stubs of the standard parsers and of the HTTP client: every outcome of encoding/csv.Reader.Read (record of the first record's width / unconvertible value / parse error / EOF), of json.Decoder.Token/More/Decode, of http.Client.Do (transport failure, status 200/404/500) and of os.Open is a symbolic choice explored by forking (feasibility decided by the solver); reflection over the row struct is answered by a go/types model. Checked on every path: no panic, the stream delivers exactly the records of the well-formed prefix in order and is closed, no goroutine is left, non-200 statuses / transport failures / unreadable files yield errors. Native replays feed REAL text / a real HTTP test server built from the same plan through the real parsers",
+		explain: "REDUCED SCOPE. The repository's own control flow and index arithmetic in Csv.ReadFromReader / ReadFromFile, JSONToChanWithLogger and TiingoRepository.GetSince run over nondeterministic stubs of the standard parsers and of the HTTP client: every outcome of encoding/csv.Reader.Read (record of the first record's width / unconvertible value / parse error / record of another width with the field-count error that Reader.FieldsPerRecord prescribes / EOF), of json.Decoder.Token/More/Decode, of http.Client.Do (transport failure, ANY status code 200..599 as a symbolic integer) and of os.Open is a symbolic choice explored by forking (feasibility decided by the solver); reflection over the row struct is answered by a go/types model. Checked on every path: no panic, the stream delivers exactly the records of the well-formed prefix in order and is closed, no goroutine is left, non-2xx statuses / transport failures / unreadable files yield errors. Native replays feed REAL text / a real HTTP test server built from the same plan through the real parsers",
 		bounds: func(t string) string {
 			if t == "thorough" {
-				return "row structs with 1..3 fields, header absent / in order / missing a column / permuted with an extra column, record widths 1..4, <= 4 records (3^4 outcome sequences), JSON arrays of <= 4 values, Tiingo bodies of <= 3 records"
+				return "row structs with 1..3 fields, header absent / in order / missing a column / permuted with an extra column, record widths 1..4, <= 4 records (5^4 outcome sequences), JSON arrays of <= 4 values, Tiingo bodies of <= 3 records"
 			}
 			return "row structs with 1..3 fields, four header shapes, record widths 1..4, <= 3 records, JSON arrays of <= 3 values, Tiingo bodies of <= 2 records"
 		},
 		validateN:   40, // the stub contracts are cross-checked against the real parsers on many plans
-		outside:     "byte-level parsing inside encoding/csv and encoding/json (\"arbitrary bytes\": only the parsers' documented outcomes are quantified over), real sockets in the symbolic run, TiingoRepository.LastDate (io.ReadAll / json.Unmarshal), struct fields of kinds other than string and int, longer inputs",
-		assumptions: append([]string{"stub contracts: csv.Reader.Read returns records of the first record's field count, an error, or io.EOF; json.Decoder and http.Client outcomes as enumerated; helper.setReflectValue fails exactly on the planted unconvertible value", "reflect.TypeOf/ValueOf/Type.Elem/Kind/NumField/Field/StructTag.Lookup/Value.Elem/Field are answered from go/types"}, commonAssumptions...),
+		outside:     "1xx informational statuses (the HTTP client consumes them), byte-level parsing inside encoding/csv and encoding/json (\"arbitrary bytes\": only the parsers' documented outcomes are quantified over), real sockets in the symbolic run, TiingoRepository.LastDate (io.ReadAll / json.Unmarshal), struct fields of kinds other than string and int, longer inputs",
+		assumptions: append([]string{"stub contracts: csv.Reader.Read follows the documented FieldsPerRecord contract (0: first record's count; >0: that count; <0: unchecked; a record of another width comes with an error), or returns a parse error or io.EOF; json.Decoder and http.Client outcomes as enumerated; helper.setReflectValue fails exactly on the planted unconvertible value", "reflect.TypeOf/ValueOf/Type.Elem/Kind/NumField/Field/StructTag.Lookup/Value.Elem/Field are answered from go/types"}, commonAssumptions...),
 		cases: func(tier string, pr *prober) []sym.CaseSpec {
 			maxRec, maxVals, tiingo := 3, 3, 2
 			if tier == "thorough" {
@@ -29,7 +29,7 @@ func init() {
 							}
 							c := cs("H_C19_Csv", shape, hdr, nrec, nf)
 							c.Cert, c.TrackMem = true, true
-							c.Weight = pow3(nrec)
+							c.Weight = pow3(nrec) * (1 + nrec)
 							out = append(out, c)
 						}
 					}
